@@ -17,13 +17,19 @@
 (* millisecond digits of the banner time stamp (C19's business), and the   *)
 (* text of a diagnostic line Read may log about its own failure.           *)
 (*                                                                         *)
-(* Design = "asis"     the periodic cycle closes the old file, then opens  *)
-(*                     the new one; a line logged in between is lost       *)
-(*                     (LogLose) -- TLC refutes NoLineLost for this design *)
-(* Design = "repaired" the cycle opens the new file and swaps the output   *)
-(*                     before the old file is closed.                      *)
-(* The trace specification accepts either order of the two halves (the     *)
-(* order is not observable by the property) but never LogLose.             *)
+(* The periodic cycle has two halves so that a Log between them is part of *)
+(* the state space:                                                        *)
+(* Design = "asis"     the first half closes the old file, the second      *)
+(*                     opens the new one; a line logged in between is lost *)
+(*                     (LogLose) -- TLC refutes LinesWholeInOrder          *)
+(* Design = "repaired" the first half opens the new file and points the    *)
+(*                     output at it; the second closes the old file.       *)
+(* The trace specification runs with "repaired": LogLose never explains a  *)
+(* recorded behaviour.                                                     *)
+(*                                                                         *)
+(* The three banner lines written when a file is opened are either part of *)
+(* the opening step (sequential use) or three separate BannerLine steps    *)
+(* (other goroutines may log in between).                                  *)
 (***************************************************************************)
 EXTENDS Bytes, TLC
 
@@ -36,19 +42,20 @@ VARIABLES now,       \* virtual clock [d, ms]
           cur,       \* name the logger's output points at, or Closed
           lastDay,   \* day the output file was chosen for
           lastRot,   \* rotation flag the output file was chosen under
-          retainAt,  \* time retention last became due
+          retainAt,  \* time from which the retention period is counted
           recent,    \* id |-> time of the last emitted line with that id
           phase,     \* "new" (no logger yet) | "run" | "gate" (between the two halves of a cycle)
+          bleft,     \* banner lines still to be written to cur (0..3)
           \* ---- history variables (properties only) ----
           acc,       \* number of lines accepted so far (at/above level, not suppressed)
           wrote,     \* name |-> sequence numbers of the accepted lines appended to it
           gone,      \* sequence numbers of lines in files removed by retention
           fresh,     \* a full cycle has run since the date / rotation flag last changed
           supp,      \* the last suppression: [t, last, iv] or NoSupp
-          deleted,   \* everything retention ever removed: [n, age, keep, must]
-          rd         \* the last Read: [file, end, len, nil, before, next, text, size, inside] or NoRead
+          deleted,   \* everything retention ever removed: [n, keep, must, may, on]
+          rd         \* the last Read: [nil, inside, len, before, text, content] or NoRead
 
-vars == <<now, conf, files, dirs, cur, lastDay, lastRot, retainAt, recent, phase,
+vars == <<now, conf, files, dirs, cur, lastDay, lastRot, retainAt, recent, phase, bleft,
           acc, wrote, gone, fresh, supp, deleted, rd>>
 
 Closed  == <<0>>                       \* not a legal file name
@@ -131,7 +138,7 @@ Dated(n) == Shape(n) /\ ValidDate(DatePart(n))
 MustDelete(n) == TopLevel(n) /\ Dated(n) /\ now.d - DateDay(DatePart(n)) > conf.keep
 
 \* names the property statement does not decide: own prefix, "-<8 digits>." right
-\* before the last dot, and either the year 0000 or a different extension.
+\* before the last dot, and either the year 0000 or an extension other than .log
 LastDot(n) == LET S == {i \in 1..Len(n) : n[i] = DOT} IN IF S = {} THEN 0 ELSE CHOOSE i \in S : \A j \in S : j <= i
 MayDelete(n) == /\ TopLevel(n) /\ OwnPrefix(n) /\ ~ Dated(n)
                 /\ LET x == LastDot(n) IN
@@ -143,6 +150,7 @@ MayDelete(n) == /\ TopLevel(n) /\ OwnPrefix(n) /\ ~ Dated(n)
                              \/ ValidDate(dt) /\ now.d - DateDay(dt) > conf.keep
 
 RetainOn == conf.rot /\ conf.keep > 0
+RetainEveryMs == 60000
 
 (* ------------------------------ line format ------------------------------ *)
 \* the stamp of the Go log package: "YYYY/MM/DD HH:MM:SS " in real (not virtual) time
@@ -150,41 +158,48 @@ StampOK(s) == /\ Len(s) = 20
               /\ \A i \in {1, 2, 3, 4, 6, 7, 9, 10, 12, 13, 15, 16, 18, 19} : IsDigit(s[i])
               /\ s[5] = SLASH /\ s[8] = SLASH /\ s[11] = 32 /\ s[14] = 58 /\ s[17] = 58 /\ s[20] = 32
 
-Kinds == {"E", "W", "I", "D", "P"}     \* Error*, Warn*, Info*, Debug*, Print* families
+\* Error*, Warn*, Info*, Debug*, Print* (explicit id) families, PrintlnStd (raw)
+Kinds == {"E", "W", "I", "D", "P", "S"}
 Gate(kind) == CASE kind = "W" -> conf.level <= 2
                 [] kind = "I" -> conf.level <= 1
                 [] kind = "D" -> conf.level <= 0
-                [] OTHER -> TRUE                 \* errors and id-carrying lines are never gated
-Cached(kind) == kind # "D"
+                [] OTHER -> TRUE                 \* errors, id-carrying and raw lines are never gated
+Cached(kind) == kind \notin {"D", "S"}
 \* the id of a line: explicit for the Print family, else the first ten bytes of the message
 IdOf(kind, pid, s) == IF kind = "P" THEN pid ELSE High(s, Min(10, Len(s)))
 IdTag(pid) == <<91>> \o pid \o <<93, 32>>
-\* what one call appends after the stamp; k = number of "[id] " prefixes (the
-\* code builds the prefix twice; one is accepted as well)
+\* what one call appends after the stamp; s = the formatted message; k = number of
+\* "[id] " prefixes (the code builds the prefix twice; one is accepted as well)
 Payload(kind, pid, s, k) ==
   CASE kind = "E" -> RedOn \o TagE \o s \o RedOff \o <<NL>>
     [] kind = "W" -> TagW \o s \o <<NL>>
     [] kind = "I" -> TagI \o s \o <<NL>>
     [] kind = "D" -> TagD \o s \o <<NL>>
     [] kind = "P" -> (IF k = 2 THEN IdTag(pid) ELSE <<>>) \o IdTag(pid) \o s \o <<NL>>
+    [] kind = "S" -> s \o <<NL>>
 
 MaySuppress(kind, id) == /\ Cached(kind) /\ conf.iv > 0 /\ id \in DOMAIN recent
                          /\ TLt(now, AddMs(recent[id], conf.iv * 1000))
 
 \* the banner written when a file is opened: three stamped lines
-BannerOf(oname, t, s1, s2, s3, msd) ==
-  s1 \o <<NL>> \o s2 \o OpenTxt \o oname \o <<32, 32>> \o YMD(t.d) \o <<32>> \o HMS(t.ms) \o <<DOT>> \o msd \o EndTxt \o s3 \o <<NL>>
-BannerFixed(oname) == 21 + 20 + Len(OpenTxt) + Len(oname) + 2 + 8 + 1 + 8 + 1 + Len(EndTxt) + 21
-IsBanner(b, oname, t) ==
-  LET nd == Len(b) - BannerFixed(oname) IN
+BannerMid(oname, t, s2, msd) ==
+  s2 \o OpenTxt \o oname \o <<32, 32>> \o YMD(t.d) \o <<32>> \o HMS(t.ms) \o <<DOT>> \o msd \o EndTxt
+MidFixed(oname) == 20 + Len(OpenTxt) + Len(oname) + 2 + 8 + 1 + 8 + 1 + Len(EndTxt)
+IsBlankLine(b) == Len(b) = 21 /\ StampOK(SubSeq(b, 1, 20)) /\ b[21] = NL
+IsMidLine(b, oname, t) ==
+  LET nd == Len(b) - MidFixed(oname) IN
     /\ nd \in 1..3
-    /\ LET s1  == SubSeq(b, 1, 20)
-           s2  == SubSeq(b, 22, 41)
-           o   == 41 + Len(OpenTxt) + Len(oname) + 2 + 8 + 1 + 8 + 1
+    /\ LET s2  == SubSeq(b, 1, 20)
+           o   == 20 + Len(OpenTxt) + Len(oname) + 2 + 8 + 1 + 8 + 1
            msd == SubSeq(b, o + 1, o + nd)
-           s3  == SubSeq(b, Len(b) - 20, Len(b) - 1)
-       IN  /\ StampOK(s1) /\ StampOK(s2) /\ StampOK(s3) /\ IsDigits(msd)
-           /\ b = BannerOf(oname, t, s1, s2, s3, msd)
+       IN  StampOK(s2) /\ IsDigits(msd) /\ b = BannerMid(oname, t, s2, msd)
+\* line i of the banner
+IsBannerLine(i, b, oname, t) == IF i = 2 THEN IsMidLine(b, oname, t) ELSE IsBlankLine(b)
+BannerOf(oname, t, s1, s2, s3, msd) == s1 \o <<NL>> \o BannerMid(oname, t, s2, msd) \o s3 \o <<NL>>
+IsBanner(b, oname, t) == /\ Len(b) > 42
+                         /\ IsBlankLine(SubSeq(b, 1, 21))
+                         /\ IsBlankLine(SubSeq(b, Len(b) - 20, Len(b)))
+                         /\ IsMidLine(SubSeq(b, 22, Len(b) - 21), oname, t)
 
 Append1(fs, n, b) == IF n \in DOMAIN fs THEN [fs EXCEPT ![n] = @ \o b] ELSE fs @@ (n :> b)
 WroteOf(n) == IF n \in DOMAIN wrote THEN wrote[n] ELSE <<>>
@@ -193,7 +208,7 @@ WroteOf(n) == IF n \in DOMAIN wrote THEN wrote[n] ELSE <<>>
 Init == /\ now = [d |-> 0, ms |-> 0]
         /\ conf = [level |-> 2, iv |-> 10, keep |-> 7, rot |-> TRUE, id |-> <<>>, oname |-> <<>>]
         /\ files = EmptyFn /\ dirs = {} /\ cur = Closed /\ lastDay = 0 /\ lastRot = TRUE
-        /\ retainAt = [d |-> 0, ms |-> 0] /\ recent = EmptyFn /\ phase = "new"
+        /\ retainAt = [d |-> 0, ms |-> 0] /\ recent = EmptyFn /\ phase = "new" /\ bleft = 0
         /\ acc = 0 /\ wrote = EmptyFn /\ gone = {} /\ fresh = FALSE /\ supp = NoSupp
         /\ deleted = {} /\ rd = NoRead
 
@@ -202,17 +217,17 @@ Init == /\ now = [d |-> 0, ms |-> 0]
 Advance(t) == /\ phase # "gate" /\ TLe(now, t)
               /\ now' = t
               /\ fresh' = (fresh /\ t.d = now.d)
-              /\ UNCHANGED <<conf, files, dirs, cur, lastDay, lastRot, retainAt, recent, phase,
+              /\ UNCHANGED <<conf, files, dirs, cur, lastDay, lastRot, retainAt, recent, phase, bleft,
                              acc, wrote, gone, supp, deleted, rd>>
 
 \* somebody else creates a file / a directory under logs/
 ExternalFile(n, data) == /\ phase # "gate" /\ n \notin DOMAIN files /\ n \notin dirs /\ n # Closed
                          /\ files' = files @@ (n :> data)
-                         /\ UNCHANGED <<now, conf, dirs, cur, lastDay, lastRot, retainAt, recent, phase,
+                         /\ UNCHANGED <<now, conf, dirs, cur, lastDay, lastRot, retainAt, recent, phase, bleft,
                                         acc, wrote, gone, fresh, supp, deleted, rd>>
 ExternalDir(n) == /\ phase # "gate" /\ n \notin DOMAIN files
                   /\ dirs' = dirs \cup {n}
-                  /\ UNCHANGED <<now, conf, files, cur, lastDay, lastRot, retainAt, recent, phase,
+                  /\ UNCHANGED <<now, conf, files, cur, lastDay, lastRot, retainAt, recent, phase, bleft,
                                  acc, wrote, gone, fresh, supp, deleted, rd>>
 
 (* ------------------------------ the logger ------------------------------ *)
@@ -226,7 +241,7 @@ Open(id, oname, level, banner) ==
          /\ conf' = c /\ cur' = n
          /\ files' = Append1(files, n, banner)
   /\ lastDay' = now.d /\ lastRot' = TRUE /\ retainAt' = now /\ phase' = "run" /\ fresh' = TRUE
-  /\ UNCHANGED <<now, dirs, recent, acc, wrote, gone, supp, deleted, rd>>
+  /\ UNCHANGED <<now, dirs, recent, bleft, acc, wrote, gone, supp, deleted, rd>>
 
 \* settings change (level / interval / keep-days / rotation); takes effect at once,
 \* the output file follows at the next cycle
@@ -234,7 +249,7 @@ Configure(level, iv, keep, rot) ==
   /\ phase = "run"
   /\ conf' = [conf EXCEPT !.level = level, !.iv = iv, !.keep = keep, !.rot = rot]
   /\ fresh' = (fresh /\ rot = conf.rot)
-  /\ UNCHANGED <<now, files, dirs, cur, lastDay, lastRot, retainAt, recent, phase,
+  /\ UNCHANGED <<now, files, dirs, cur, lastDay, lastRot, retainAt, recent, phase, bleft,
                  acc, wrote, gone, supp, deleted, rd>>
 
 \* a call below the configured level leaves no trace
@@ -247,7 +262,7 @@ LogSuppress(kind, pid, s) ==
   /\ LET id == IdOf(kind, pid, s) IN
        /\ MaySuppress(kind, id)
        /\ supp' = [t |-> now, last |-> recent[id], iv |-> conf.iv]
-  /\ UNCHANGED <<now, conf, files, dirs, cur, lastDay, lastRot, retainAt, recent, phase,
+  /\ UNCHANGED <<now, conf, files, dirs, cur, lastDay, lastRot, retainAt, recent, phase, bleft,
                  acc, wrote, gone, fresh, deleted, rd>>
 
 \* otherwise the line is appended whole to the current file
@@ -258,67 +273,81 @@ LogEmit(kind, pid, s, stamp, k) ==
   /\ recent' = IF Cached(kind) THEN Put(recent, IdOf(kind, pid, s), now) ELSE recent
   /\ acc' = acc + 1
   /\ wrote' = Put(wrote, cur, WroteOf(cur) \o <<acc + 1>>)
-  /\ UNCHANGED <<now, conf, dirs, cur, lastDay, lastRot, retainAt, phase, gone, fresh, supp, deleted, rd>>
+  /\ UNCHANGED <<now, conf, dirs, cur, lastDay, lastRot, retainAt, phase, bleft, gone, fresh, supp, deleted, rd>>
 
 \* the as-is design only: output points at a closed file, the accepted line vanishes
 LogLose(kind, pid, s) ==
   /\ Design = "asis" /\ phase = "gate" /\ Gate(kind) /\ cur = Closed
   /\ recent' = IF Cached(kind) THEN Put(recent, IdOf(kind, pid, s), now) ELSE recent
   /\ acc' = acc + 1
-  /\ UNCHANGED <<now, conf, files, dirs, cur, lastDay, lastRot, retainAt, phase, wrote, gone, fresh, supp, deleted>>
-  /\ UNCHANGED rd
+  /\ UNCHANGED <<now, conf, files, dirs, cur, lastDay, lastRot, retainAt, phase, bleft, wrote, gone, fresh, supp, deleted, rd>>
 
-(* retention: when more than a minute has passed since it last became due, and
-   rotation is on and keep-days positive, remove exactly MustDelete (and possibly
-   some of the undecided names `extra`) *)
-RetainDue == TLt(AddMs(retainAt, 60000), now)
-Doomed(extra) == IF RetainDue /\ RetainOn
-                 THEN {n \in DOMAIN files : MustDelete(n)} \cup extra
-                 ELSE {}
+(* retention: it runs when more than RetainEveryMs have passed since retainAt (it
+   may run earlier -- the period is not part of the property); when it runs, and
+   rotation is on and keep-days positive, it removes exactly MustDelete (and
+   possibly some of the undecided names `extra`) *)
+RetainDue == TLt(AddMs(retainAt, RetainEveryMs), now)
 Without(f, D) == [n \in DOMAIN f \ D |-> f[n]]
 SeqRange(s) == {s[i] : i \in 1..Len(s)}
 GoneOf(D) == UNION {SeqRange(WroteOf(n)) : n \in D}
 RotationNeeded == lastRot # conf.rot \/ lastDay # now.d \/ cur = Closed
 
 \* first half of the periodic cycle.  mode "swap": open the new file and point the
-\* output at it; mode "close": close the old file (output dangling until CycleB)
-CycleA(mode, banner, extra) ==
-  /\ phase = "run"
+\* output at it (banner = the whole banner, or <<>>: three BannerLine steps follow);
+\* mode "close": close the old file (output dangling until CycleB); "none": no
+\* rotation needed.  ran: retention ran in this cycle.
+CycleA(mode, banner, extra, ran) ==
+  /\ phase = "run" /\ bleft = 0
   /\ extra \subseteq {n \in DOMAIN files : MayDelete(n)}
-  /\ (extra # {} => RetainDue /\ RetainOn)
-  /\ LET D  == Doomed(extra)
+  /\ (ran => RetainOn) /\ (RetainDue /\ RetainOn => ran) /\ (extra # {} => ran)
+  /\ LET D  == IF ran THEN {n \in DOMAIN files : MustDelete(n)} \cup extra ELSE {}
          f1 == Without(files, D)
          n  == NameOf(conf, conf.rot, now.d)
      IN  /\ deleted' = deleted \cup {[n |-> x, keep |-> conf.keep, must |-> MustDelete(x), may |-> MayDelete(x), on |-> RetainOn] : x \in D}
          /\ gone' = gone \cup GoneOf(D)
          /\ wrote' = Without(wrote, D)
-         /\ retainAt' = IF RetainDue THEN now ELSE retainAt
+         /\ retainAt' = IF ran \/ RetainDue THEN now ELSE retainAt
          /\ IF ~ RotationNeeded
             THEN /\ files' = f1 /\ banner = <<>> /\ mode = "none"
-                 /\ UNCHANGED <<cur, lastDay, lastRot>>
+                 /\ UNCHANGED <<cur, lastDay, lastRot, bleft>>
             ELSE /\ lastDay' = now.d /\ lastRot' = conf.rot
                  /\ \/ /\ mode = "swap" /\ IsBanner(banner, conf.oname, now)
-                       /\ files' = Append1(f1, n, banner) /\ cur' = n
+                       /\ files' = Append1(f1, n, banner) /\ cur' = n /\ bleft' = 0
+                    \/ /\ mode = "swap" /\ banner = <<>>
+                       /\ files' = Append1(f1, n, <<>>) /\ cur' = n /\ bleft' = 3
                     \/ /\ mode = "close" /\ banner = <<>>
-                       /\ files' = f1 /\ cur' = Closed
+                       /\ files' = f1 /\ cur' = Closed /\ bleft' = 0
   /\ phase' = "gate"
   /\ UNCHANGED <<now, conf, dirs, recent, acc, fresh, supp, rd>>
 
+\* one banner line on its own
+BannerLine(b) ==
+  /\ phase = "gate" /\ bleft > 0 /\ cur # Closed
+  /\ IsBannerLine(4 - bleft, b, conf.oname, now)
+  /\ files' = Append1(files, cur, b)
+  /\ bleft' = bleft - 1
+  /\ UNCHANGED <<now, conf, dirs, cur, lastDay, lastRot, retainAt, recent, phase,
+                 acc, wrote, gone, fresh, supp, deleted, rd>>
+
 \* second half: (re)open if the output is dangling
 CycleB(banner) ==
-  /\ phase = "gate"
+  /\ phase = "gate" /\ bleft = 0
   /\ IF cur = Closed
      THEN LET n == NameOf(conf, conf.rot, now.d) IN
             /\ IsBanner(banner, conf.oname, now)
             /\ files' = Append1(files, n, banner) /\ cur' = n
      ELSE banner = <<>> /\ UNCHANGED <<files, cur>>
   /\ phase' = "run" /\ fresh' = TRUE
-  /\ UNCHANGED <<now, conf, dirs, lastDay, lastRot, retainAt, recent, acc, wrote, gone, supp, deleted, rd>>
+  /\ UNCHANGED <<now, conf, dirs, lastDay, lastRot, retainAt, recent, bleft, acc, wrote, gone, supp, deleted, rd>>
 
 (* ----------------------------------- Read -------------------------------- *)
-\* lexical resolution of a caller-supplied name below logs/ : the stack of path
-\* segments, or Escapes when ".." climbs above logs/
-Escapes == <<<<0>>>>
+\* lexical resolution of a caller-supplied name joined below <home>/logs : the path
+\* is walked from <<HomeMark, "logs">>; the result is the stack of segments below
+\* logs/, or Escapes when the walk ends anywhere else (what lies above <home> is
+\* unknown, so a walk that leaves <home> never comes back)
+Escapes  == <<<<0>>>>
+HomeMark == <<0>>
+LogsName == <<108, 111, 103, 115>>
 RECURSIVE SplitAt(_, _, _, _)
 SplitAt(s, i, curseg, out) ==
   IF i > Len(s) THEN Append(out, curseg)
@@ -326,20 +355,23 @@ SplitAt(s, i, curseg, out) ==
   ELSE SplitAt(s, i + 1, Append(curseg, s[i]), out)
 RECURSIVE Walk(_, _, _)
 Walk(segs, i, st) ==
-  IF st = Escapes \/ i > Len(segs) THEN st
+  IF i > Len(segs) THEN st
   ELSE LET g == segs[i] IN
        IF g = <<>> \/ g = <<DOT>> THEN Walk(segs, i + 1, st)
        ELSE IF g = <<DOT, DOT>>
-            THEN (IF st = <<>> THEN Escapes ELSE Walk(segs, i + 1, SubSeq(st, 1, Len(st) - 1)))
+            THEN Walk(segs, i + 1, IF st = <<>> THEN st ELSE SubSeq(st, 1, Len(st) - 1))
             ELSE Walk(segs, i + 1, Append(st, g))
 RECURSIVE JoinSegs(_)
 JoinSegs(st) == IF st = <<>> THEN <<>>
                 ELSE IF Len(st) = 1 THEN st[1]
                 ELSE st[1] \o <<SLASH>> \o JoinSegs(Tail(st))
-Resolve(file) == Walk(SplitAt(file, 1, <<>>, <<>>), 1, <<>>)
+Resolve(file) == LET st == Walk(SplitAt(file, 1, <<>>, <<>>), 1, <<HomeMark, LogsName>>) IN
+                 IF Len(st) >= 2 /\ st[1] = HomeMark /\ st[2] = LogsName THEN SubSeq(st, 3, Len(st)) ELSE Escapes
+\* the name of a file directly in logs/, as GetLogFiles lists them
+Plain(file) == file # <<>> /\ TopLevel(file) /\ file # <<DOT>> /\ file # <<DOT, DOT>>
 
-\* the answer of Read(file, end, len): nil, or the window of at most len bytes that
-\* ends at `end` (end < 0: at the end of the file)
+\* the reference answer of Read(file, end, len): nil, or the window of at most len
+\* bytes that starts len bytes before `end` (end < 0: the end of the file)
 ReadAnswer(file, end, len) ==
   LET st == Resolve(file) IN
   IF file = <<>> \/ len <= 0 \/ st = Escapes THEN [nil |-> TRUE, inside |-> st # Escapes]
@@ -353,23 +385,26 @@ ReadAnswer(file, end, len) ==
                  IN  [nil |-> FALSE, inside |-> TRUE, target |-> t, size |-> size,
                       before |-> start, text |-> Slice(files[t], start + 1, n)]
 
-\* Read may log one error line about its own failure (diag = its message, <<>> = none)
+(* Read(file, end, len) answered res = [nil] or [nil, before, text].  What is pinned:
+   whether there is an answer at all for a plain name; that a name which is not a
+   plain file name is answered only from the file it lexically resolves to inside
+   logs/ (or not at all).  Where the window lies is judged by ReadHonest alone.
+   Read may log one error line about its own failure (diag = its message). *)
 Read(file, end, len, res, diagStamp, diag) ==
   /\ phase = "run"
   /\ LET a == ReadAnswer(file, end, len) IN
-       /\ res.nil = a.nil
-       /\ ~ a.nil => /\ res.before = a.before /\ res.text = a.text
-                     /\ (res.next = -1 \/ (res.next >= a.before + Len(a.text) /\ res.next <= a.size))
-       /\ rd' = IF a.nil THEN [nil |-> TRUE, inside |-> a.inside, len |-> len]
+       /\ (Plain(file) => res.nil = a.nil)
+       /\ (~ res.nil => ~ a.nil)
+       /\ rd' = IF res.nil THEN [nil |-> TRUE, inside |-> a.inside, len |-> len]
                 ELSE [nil |-> FALSE, inside |-> a.inside, len |-> len, before |-> res.before,
                       text |-> res.text, content |-> files[a.target]]
        /\ IF diag = <<>> THEN UNCHANGED <<files, recent, acc, wrote>>
-          ELSE /\ a.nil /\ cur # Closed /\ StampOK(diagStamp)
+          ELSE /\ res.nil /\ cur # Closed /\ StampOK(diagStamp)
                /\ files' = Append1(files, cur, diagStamp \o Payload("E", <<>>, diag, 1))
                /\ recent' = Put(recent, IdOf("E", <<>>, diag), now)
                /\ acc' = acc + 1
                /\ wrote' = Put(wrote, cur, WroteOf(cur) \o <<acc + 1>>)
-  /\ UNCHANGED <<now, conf, dirs, cur, lastDay, lastRot, retainAt, phase, gone, fresh, supp, deleted>>
+  /\ UNCHANGED <<now, conf, dirs, cur, lastDay, lastRot, retainAt, phase, bleft, gone, fresh, supp, deleted>>
 
 (* ------------------------------- properties ------------------------------ *)
 \* every accepted line is in exactly one place, and each file holds its lines in call order
